@@ -27,3 +27,4 @@ def rules(ctx):
     S.c06_r1_freed_merged(ctx)
     S.c07_rules(ctx)
     S.loop_completeness_rules(ctx)
+    S.cache_reset_rules(ctx)
